@@ -15,7 +15,7 @@ DEMOS=$(ls $M/*_test.go 2>/dev/null)
 if [ -z "$DEMOS" ] || [ -z "$PKG" ] || [ ! -d "$D/$PKG" ]; then res "NO-DEMO (pkg=$PKG)"; exit 1; fi
 cp $DEMOS $D/$PKG/
 TAGS=""; if ls $M/*_verif_test.go >/dev/null 2>&1; then TAGS="-tags verif"; fi
-rundemo() { (cd $D/$PKG && timeout 600 go test $TAGS -mod=mod -vet=off -count=1 -run 'Demo' . >/tmp/cm-demo-$ID.log 2>&1); }
+rundemo() { (cd $D/$PKG && timeout 600 go test $TAGS -mod=mod -vet=off -count=1 -run "Demo|${ID:0:3}" . >/tmp/cm-demo-$ID.log 2>&1); }
 # without the change
 rundemo; WITHOUT=$?
 git -C $D apply $M/patch.diff
